@@ -9,11 +9,10 @@ SFILE = "src/special/polynomial/mod.rs"
 def units(ctx):
     u = Unit("C18", "special", preludes=("real", "stdx"), cfg=cfg())
     all_ops(u)
+    # every inherent Polynomial method the constructors could reach, under its C13 contract
+    u.spec(HSD_SPEC)
+    add_basic(u, names=("new", "from_slice", "set_tolerance_placeholder", "purge_leading", "order", "get_coefficient", "set_coefficient", "purge_coefficient"))
     im = u.impl(PFILE, "Polynomial<N>", header="impl Polynomial")
-    f = im.fn("from_slice").opt(subst=COPIED)
-    f.ens("res.wf()", "res.tolerance@ == 1real / 10000000000real",
-          "data@.len() == 0 ==> res.coefficients@.len() == 1 && res.c(0) == 0real",
-          "data@.len() > 0 ==> res.coefficients@ == data@.reverse()")
     f = im.fn("set_tolerance")
     f.ens("tolerance@ < 0real ==> res is Err", "res is Ok ==> final(self).tolerance == tolerance && final(self).coefficients == old(self).coefficients",
           "tolerance@ > 0real ==> res is Ok")
